@@ -223,7 +223,7 @@ class Query:
             return None
 
         if projection == Projection.RELATIVE:
-            obj: Dict[Union[int, str], Any] = {}
+            obj: Dict[Union[int, str], Any] = _SparseObj()
             for expr in expressions:
                 path = self._env.compile(expr) if isinstance(expr, str) else expr
                 for rel_match in path.finditer(match.obj):  # type: ignore
@@ -240,13 +240,21 @@ class Query:
             return arr
 
         # Project from the root document
-        obj = {}
+        obj = _SparseObj()
         for expr in expressions:
             path = self._env.compile(expr) if isinstance(expr, str) else expr
             for rel_match in path.finditer(match.obj):  # type: ignore
                 _patch_obj(match.parts + rel_match.parts, obj, rel_match.obj)
 
         return _fix_sparse_arrays(obj)
+
+
+class _SparseObj(Dict[Union[int, str], Any]):
+    """A node of the object being built by `_patch_obj`.
+
+    Anything else found while patching is a value selected from the document,
+    which must not be modified.
+    """
 
 
 def _patch_obj(
@@ -263,11 +271,15 @@ def _patch_obj(
     #
     # We'll fix these "sparse arrays" after the patch has been applied.
     for part in parts[:-1]:
+        if not isinstance(_obj, _SparseObj):
+            # An ancestor of this value has been selected already.
+            return
         if part not in _obj:
-            _obj[part] = {}  # type: ignore
+            _obj[part] = _SparseObj()
         _obj = _obj[part]
 
-    _obj[parts[-1]] = value  # type: ignore
+    if isinstance(_obj, _SparseObj):
+        _obj[parts[-1]] = value
 
 
 def _fix_sparse_arrays(obj: Any) -> object:
